@@ -125,6 +125,10 @@ def run_workers(prop, cases, hashseed, work, tag):
 
 
 # ----------------------------------------------------------------------------------------- model side
+SHARD_TIMEOUT = int(os.environ.get('VERIF_SHARD_SECONDS', '900'))
+CASE_TIMEOUT = int(os.environ.get('VERIF_CASE_SECONDS', '240'))
+
+
 def coq_eval(mod, terms, work, tag, what='failures'):
     """terms: list of Coq terms of type nat (judge codes).  Returns list of (index, code) with code != 0."""
     shards = []
@@ -141,17 +145,37 @@ def coq_eval(mod, terms, work, tag, what='failures'):
     def one(k):
         base, ts = shards[k]
         fn = os.path.join(work, 'cases_%s_%d.v' % (tag, k))
+        rc, out = run_file(fn, ts, SHARD_TIMEOUT)
+        if rc in (124, 137) or 'Out of memory' in out or 'Stack overflow' in out:
+            # the shard did not finish within its budget: evaluate its cases one by one; a case that still does not finish gets
+            # code 98 (the judge could not be evaluated on this observation - the correspondence is not established for it)
+            res = []
+            for j, t in enumerate(ts):
+                fj = os.path.join(work, 'cases_%s_%d_%d.v' % (tag, k, j))
+                rcj, outj = run_file(fj, [t], CASE_TIMEOUT)
+                if rcj in (124, 137) or 'Out of memory' in outj or 'Stack overflow' in outj:
+                    res.append((base + j, 98))
+                elif rcj != 0:
+                    raise RuntimeError('coqc failed on %s:\n%s' % (fj, outj[-3000:]))
+                else:
+                    res.extend((base + j + a, b) for a, b in parse(outj))
+            return res
+        if rc != 0:
+            raise RuntimeError('coqc failed on %s:\n%s' % (fn, out[-3000:]))
+        return [(base + a, b) for a, b in parse(out)]
+
+    def run_file(fn, ts, limit):
         with open(fn, 'w') as f:
             f.write('From GT Require Import Base.Prelude Judge.Common %s.\n' % ' '.join(mod.COQ_IMPORTS))
             f.write('Definition results : list nat := [\n' + ';\n'.join(ts) + '\n].\n')
             f.write('Eval vm_compute in (failures results).\n')
-        rc, out = sh(['timeout', '1800', 'coqc', '-Q', os.path.join(COQ, 'theories'), 'GT', '-noglob', '-o', fn + 'o', fn])
-        if rc != 0:
-            raise RuntimeError('coqc failed on %s:\n%s' % (fn, out[-3000:]))
+        return sh(['timeout', '-s', 'KILL', str(limit), 'coqc', '-Q', os.path.join(COQ, 'theories'), 'GT', '-noglob', '-o', fn + 'o', fn])
+
+    def parse(out):
         m = re.search(r'=\s*(.*?)\s*:\s*list \(nat \* nat\)', out, flags=re.S)
         if not m:
             raise RuntimeError('cannot parse coqc output:\n' + out[-2000:])
-        return [(base + int(a), int(b)) for a, b in re.findall(r'\((\d+),\s*(\d+)\)', m.group(1))]
+        return [(int(a), int(b)) for a, b in re.findall(r'\((\d+),\s*(\d+)\)', m.group(1))]
 
     with cf.ThreadPoolExecutor(NPROC) as ex:
         parts = list(ex.map(one, range(len(shards))))
@@ -242,7 +266,7 @@ def main():
     # --- replay mode
     if args.replay:
         rp = json.load(open(args.replay))
-        if rp.get('kind') == 'no-failing-input-found':
+        if rp.get('kind') == 'no-failing-input-found' and 'case' not in rp:
             print('replay names a broken obligation, no input: %s; proofs_ok now = %s' % (rp.get('broken'), proofs_ok))
             sys.exit(0 if proofs_ok else 1)
         case = rp['case']
@@ -318,7 +342,23 @@ def main():
         if v not in chosen and len(chosen) < 2:
             chosen.append(v)
     replay_paths = []
+    nfif = set()
     for hs, i, c, sig in chosen[:4]:
+        if c == 98:
+            # the judge could not be evaluated on this observation within its budget: the correspondence is not established
+            # for this case, no failing input is exhibited
+            h = hashlib.sha256(json.dumps(cases[i], sort_keys=True).encode()).hexdigest()[:8]
+            rp = os.path.join(VERIF, 'replays', '%s-%s.json' % (prop, h))
+            with open(rp, 'w') as f:
+                json.dump({'property': prop, 'kind': 'no-failing-input-found', 'code': 98,
+                           'broken': 'correspondence Judge/%s_judge.v on this case: evaluation inside Coq exceeded %d s (the implementation returned an object far '
+                                     'larger than the model predicts, or the model diverges on it)' % (getattr(mod, 'JUDGE', prop), CASE_TIMEOUT),
+                           'signature': sig, 'hashseed': hs, 'case': cases[i], 'observed': obs_by_seed[hs][i],
+                           'readable': mod.describe(cases[i]) if hasattr(mod, 'describe') else None,
+                           'replay_cmd': './check %s --replay %s' % (prop, rp)}, f, indent=1, ensure_ascii=False)
+            replay_paths.append(rp)
+            nfif.add(rp)
+            continue
         small = shrink(mod, prop, cases[i], c, hs, work)
         obs1, fails1 = evaluate(mod, prop, [small], hs, work, 'final')
         if not fails1:
@@ -391,7 +431,7 @@ def main():
           % (prop, tier, len(theorems), ev['coverage']['discharged'], len(cases), len(seeds), nontriv, struct_only, nviol, time.time() - t0))
     if nviol:
         for rp in replay_paths:
-            print('VIOLATION property=%s replay=%s' % (prop, rp))
+            print('VIOLATION property=%s replay=%s%s' % (prop, rp, ' no-failing-input-found' if rp in nfif else ''))
         sys.exit(1)
     if not proofs_ok:
         print('VIOLATION property=%s replay=%s no-failing-input-found' % (prop, replay_paths[0]))
